@@ -229,6 +229,26 @@ def dopStep (d : DType) (limit : Nat) (σ : Op.St) (op : String) : String × Op.
     | (.ok xs, σ') => (s!"ok vals={valsStr xs}", σ')
     | (.err e, σ') => (errStr e, σ')
   | "I" => ("ok", σ)
+  | "d" =>
+    match Op.simpleDecompress L gbFloat d σ with
+    | (.ok xs, σ') => (s!"ok n={xs.length}", σ')
+    | (.err e, σ') => (errStr e, σ')
+  | "b" =>
+    match Op.chunkBody L d σ with
+    | (.ok xs, σ') => (s!"ok n={xs.length}", σ')
+    | (.err e, σ') => (errStr e, σ')
+  | "m" =>
+    match Op.chunkMetadata gbFloat d σ with
+    | (.ok (some m), σ') => (s!"ok meta n={m.n}", σ')
+    | (.ok none, σ') => ("ok none", σ')
+    | (.err e, σ') => (errStr e, σ')
+  | "r" =>
+    let (items, e, σ') := Op.drainIter L gbFloat d limit 100000000 σ []
+    let count := items.foldl (fun a it => match it with | .nums xs => a + xs.length | _ => a) 0
+    let last := match e with
+      | some e => errStr e
+      | none => if items.any (fun it => match it with | .footer => true | _ => false) then "footer" else "none"
+    (s!"drained n={count} last={last}", σ')
   | "G" => ("dbg -", σ)
   | _ => ("bad-op", σ)
 
